@@ -426,7 +426,7 @@ fn reader_main(i: usize, rs: ReadState<CS>, prog: Vec<ROp>, keyseed: u64, addinf
                                     .ok()
                                     .and_then(|k| {
                                         let mut out = vec![0u8; pt.len()];
-                                        let ad = AuthData { version: u32::from(Version::current().to_u16()), label_id: label_of(x) };
+                                        let ad = AuthData { version: u32::from(Version::V1 as u16), label_id: label_of(x) };
                                         k.open(&mut out, &dst[..dst.len() - HDR], &ad, Seq::new(seq)).ok().map(|_| out == pt)
                                     })
                                     .unwrap_or(false);
@@ -448,7 +448,7 @@ fn reader_main(i: usize, rs: ReadState<CS>, prog: Vec<ROp>, keyseed: u64, addinf
                         let mut adv = false;
                         let r = cl.state().seal(ctx, |k, l| {
                             let before = k.seq();
-                            let ad = AuthData { version: u32::from(Version::current().to_u16()), label_id: l };
+                            let ad = AuthData { version: u32::from(Version::V1 as u16), label_id: l };
                             let mut small = [0u8; 4];
                             let r = k.seal(&mut small, pt, &ad).map_err(Error::from);
                             if r.is_err() && k.seq() != before {
@@ -477,7 +477,7 @@ fn reader_main(i: usize, rs: ReadState<CS>, prog: Vec<ROp>, keyseed: u64, addinf
                 // a genuine message of channel x (sealed with the peer's half of the key)
                 let mut wire = vec![0u8; pt.len() + OVERHEAD];
                 let n = wire.len();
-                let ad = AuthData { version: u32::from(Version::current().to_u16()), label_id: label_of(x) };
+                let ad = AuthData { version: u32::from(Version::V1 as u16), label_id: label_of(x) };
                 let sealed = SealKey::<CS>::from_raw(&raw_key(keyseed, x), Seq::new(3))
                     .ok()
                     .and_then(|mut sk| sk.seal(&mut wire[..n - HDR], pt, &ad).ok());
